@@ -128,6 +128,7 @@ func checkC13(r *evid.Run) {
 	} else {
 		traceAPIHistories(r, 40, 40)
 	}
+	proveSession(r)
 	sessionPhase(r) // Session.tla: the calls this property owns, after every other call of the alphabet
 	r.Set("exhaustive", true)
 	r.Set("rule", "every history of at most MaxCalls calls over NewRoot(a|b), Add(any live node, a|b) and any From-Root operation on any live root (text, walk; thorough: + encoders), each re-executed on the real API and its last result compared with the declarative result of the tree's shape; then the same histories executed concurrently from 16 goroutines; non-trivial = at least 3 calls incl. an operation")
